@@ -418,7 +418,7 @@ func (f *c10Fix) run(s *c10Step, emitStart func()) {
 	}
 	burl := f.sys.backendUrl(0) + "/ocs/v2.php/apps/spreed/api/v1/signaling/backend"
 	subst := strings.NewReplacer(c10Sid, sid, c10Pid, pid, c10Bid, f.byPub, c10Rid, rid, c10Room, c10RoomId, c10Burl, burl, c10Bbase, f.sys.backendUrl(0))
-	rev := strings.NewReplacer(sid, c10Sid, pid, c10Pid, f.byPub, c10Bid, rid, c10Rid)
+	rev := strings.NewReplacer(sid, c10Sid, pid, c10Pid, f.byPub, c10Bid, rid, c10Rid, burl, c10Burl, f.sys.backendUrl(0), c10Bbase, c10RoomId, c10Room)
 	data, binary := s.frame(subst)
 	if s.K == "doc" {
 		s.Orc = c10Oracles(s.Doc, subst)
